@@ -41,7 +41,7 @@ DATA_TXT = 'Date,Description,Amount\n2024-01-05,NETFLIX.COM,15.99\n2024-01-07,UB
 
 shape_st = st.fixed_dictionaries({
     'layout': st.sampled_from(['old', 'new']),
-    'settings': st.sampled_from(['plain', 'plain', 'with_rules', 'with_rules_views', 'no_trailing_newline', 'absent', 'starter', 'starter_merchants_hint', 'stale_rules_entry']),
+    'settings': st.sampled_from(['plain', 'plain', 'with_rules', 'with_rules_views', 'no_trailing_newline', 'absent', 'starter', 'starter_merchants_hint', 'stale_rules_entry', 'with_retired_keys']),
     'rules': st.sampled_from(['absent', 'present', 'present', 'present', 'no_rules_yet', 'half_written']),
     'csv': st.sampled_from(['absent', 'rules', 'rules', 'empty']),
     'bak': st.booleans(), 'baks': st.sampled_from([[], [], ['.bak2'], ['.bak3'], ['.bak2', '.bak3'], ['.bak.old'], ['.backup']]), 'views': st.booleans(), 'notes': st.booleans(), 'gitignore': st.sampled_from([None, None, 'node_modules/\n*.pyc\n', '# mine\ndata/\n', 'output/\ndata/\n', '']), 'old_report': st.booleans(), 'data': st.booleans(),
@@ -86,6 +86,9 @@ class Folder:
             if s == 'stale_rules_entry':
                 # the entry names a rules file that is not there (renamed, not restored yet): still the user's line, comment included
                 text += 'merchants_file: config/rules-2025.rules  # switch back in January\n'
+            if s == 'with_retired_keys':
+                # keys newer versions only warn about: still the user's lines
+                text += 'home_locations:\n  - WA\n  - OR\ntravel_labels:\n  HI: Hawaii\nhome_state: WA\n'
             if s == 'starter':
                 text = SETTINGS_STARTER
             if s == 'starter_merchants_hint':
